@@ -858,13 +858,24 @@ Section Views.
     destruct (q_filter pv); reflexivity.
   Qed.
 
-  Lemma mapM_build_view_renum f secs :
-    mapM (build_view pyparse) (map (fun s : section => let '(n, name, ps) := s in (f n, name, map (on_fst f) ps)) secs)
-    = emap f (map (renum_view f)) (mapM (build_view pyparse) secs).
+  Lemma build_view_d_renum f seen n0 name lines :
+    build_view_d pyparse (seen, (f n0, name, map (on_fst f) lines))
+    = emap f (renum_view f) (build_view_d pyparse (seen, (n0, name, lines))).
   Proof.
-    induction secs as [|[[n name] ps] r IH]; [reflexivity|].
-    cbn [map mapM]. rewrite build_view_renum. destruct (build_view pyparse (n, name, ps)); cbn [bind emap]; [|reflexivity].
-    rewrite IH. destruct (mapM (build_view pyparse) r); reflexivity.
+    unfold build_view_d. cbn [fst snd]. destruct (mem name seen); [reflexivity|]. apply build_view_renum.
+  Qed.
+
+  Lemma mapM_build_view_renum f secs : forall seen,
+    mapM (build_view_d pyparse)
+      (with_seen seen (map (fun s : section => let '(n, name, ps) := s in (f n, name, map (on_fst f) ps)) secs))
+    = emap f (map (renum_view f)) (mapM (build_view_d pyparse) (with_seen seen secs)).
+  Proof.
+    induction secs as [|[[n name] ps] r IH]; intros seen; [reflexivity|].
+    cbn [map with_seen mapM fst snd]. rewrite build_view_d_renum.
+    set (b := build_view_d pyparse (seen, (n, name, ps))).
+    change (build_view_d pyparse (seen, (n, name, ps))) with b. clearbody b.
+    destruct b; cbn [bind emap]; [|reflexivity].
+    rewrite IH. destruct (mapM (build_view_d pyparse) (with_seen (seen ++ [name]) r)); reflexivity.
   Qed.
 
   Lemma parse_v_numbered_renum f nl :
@@ -877,7 +888,7 @@ Section Views.
     rewrite group_map. destruct (group _) as [pre secs]. unfold gmap; simpl.
     rewrite (foldM_renum _ f (vpre_step_renum f)).
     destruct (foldM (vpre_step pyparse) pre []); simpl; [|reflexivity].
-    rewrite mapM_build_view_renum. destruct (mapM (build_view pyparse) secs); reflexivity.
+    rewrite mapM_build_view_renum. destruct (mapM (build_view_d pyparse) (with_seen [] secs)); reflexivity.
   Qed.
 
   Lemma v_insert_skip l1 c l2 :
@@ -931,6 +942,27 @@ Section Views.
     destruct (vitem_of s1), (vitem_of s2); try reflexivity; congruence.
   Qed.
 
+  Lemma with_seen_app a b : forall seen,
+    with_seen seen (a ++ b) = with_seen seen a ++ with_seen (seen ++ map (fun s : section => snd (fst s)) a) b.
+  Proof.
+    induction a as [|x a IH]; intros seen; cbn [app with_seen map]; [now rewrite app_nil_r|].
+    rewrite IH, <- app_assoc. reflexivity.
+  Qed.
+
+  Lemma with_seen_in sec secs : forall seen, In sec secs -> exists sn, In (sn, sec) (with_seen seen secs).
+  Proof.
+    induction secs as [|x r IH]; intros seen; [intros []|]. intros [->|H]; cbn [with_seen].
+    - eexists; left; reflexivity.
+    - destruct (IH (seen ++ [snd (fst x)]) H) as [sn Hsn]. exists sn. now right.
+  Qed.
+
+  Lemma with_seen_in_inv sn sec secs : forall seen, In (sn, sec) (with_seen seen secs) -> In sec secs.
+  Proof.
+    induction secs as [|x r IH]; intros seen; [intros []|]. cbn [with_seen]. intros [H|H].
+    - inversion H; subst. now left.
+    - right. eapply IH; eauto.
+  Qed.
+
   Lemma v_section_replace_sim xs cb cb' ys :
     has_header (map tkv xs) = true ->
     (forall p, In p (map tkv cb) -> exists s, snd p = Content s) ->
@@ -942,7 +974,9 @@ Section Views.
     intros Hh Hc Hc' Hs. unfold parse_v_numbered. fold tkv. rewrite !map_app.
     destruct (group_app_hdr _ Hh) as (pre1 & s1 & n0 & name & p & E).
     rewrite !E, (group_contents _ _ Hc), (group_contents _ _ Hc'). cbn [fst snd].
-    apply sim_bind_r. intros g. apply sim_bind. apply mapM_replace_sim.
+    apply sim_bind_r. intros g. apply sim_bind. rewrite !with_seen_app. cbn [with_seen fst snd].
+    apply mapM_replace_sim.
+    unfold build_view_d. cbn [fst snd]. destruct (mem name _); [apply sim_refl|].
     unfold build_view. apply sim_bind. rewrite !foldM_app. apply sim_bind_r. intros st.
     rewrite !foldM_app. apply sim_bind. apply Hs.
   Qed.
@@ -1294,16 +1328,41 @@ Section FileLevel.
   Qed.
 
   (* ---- views ---- *)
-  Lemma parse_v_sections ls f :
+  Definition sec_name (s : section) : string := snd (fst s).
+
+  Lemma with_seen_ok vs : forall secs seen,
+    Forall2 (fun p v => build_view_d pyparse p = Ok v) (with_seen seen secs) vs ->
+    Forall2 (fun sec v => build_view pyparse sec = Ok v) secs vs /\
+    NoDup (map sec_name secs) /\ (forall x, In x seen -> ~ In x (map sec_name secs)).
+  Proof.
+    induction vs as [|v vs IH]; intros [|sec r] seen H; cbn [with_seen] in H; inversion H; subst.
+    - repeat split; [constructor|constructor|intros x _ []].
+    - destruct (IH _ _ H5) as (F & N & D). unfold build_view_d in H3. cbn [fst snd] in H3.
+      destruct (mem (snd (fst sec)) seen) eqn:M; [discriminate H3|].
+      assert (Hs : ~ In (sec_name sec) seen).
+      { intros Hin. apply mem_In in Hin. unfold sec_name in Hin. congruence. }
+      repeat split.
+      + constructor; assumption.
+      + cbn [map]. constructor; [|exact N]. apply (D (sec_name sec)). apply in_or_app. right. now left.
+      + intros x Hx [E|Hr]; [subst; contradiction|]. apply (D x); [apply in_or_app; now left|exact Hr].
+  Qed.
+
+  Lemma parse_v_sections_nodup ls f :
     parse_views pyparse ls = Ok f ->
-    Forall2 (fun sec v => build_view pyparse sec = Ok v) (sections_v ls) (f_views f).
+    Forall2 (fun sec v => build_view pyparse sec = Ok v) (sections_v ls) (f_views f) /\
+    NoDup (map sec_name (sections_v ls)).
   Proof.
     unfold parse_views, parse_v_numbered, sections_v.
     destruct (group _) as [pre secs]. destruct (foldM (vpre_step pyparse) pre []) as [g|]; [|discriminate].
     cbn [bind snd].
-    destruct (mapM (build_view pyparse) secs) as [vs|] eqn:E; [|discriminate].
-    intros H; inversion H; subst; cbn. now apply mapM_Ok.
+    destruct (mapM (build_view_d pyparse) (with_seen [] secs)) as [vs|] eqn:E; [|discriminate].
+    intros H; inversion H; subst; cbn. apply mapM_Ok in E. apply with_seen_ok in E. tauto.
   Qed.
+
+  Lemma parse_v_sections ls f :
+    parse_views pyparse ls = Ok f ->
+    Forall2 (fun sec v => build_view pyparse sec = Ok v) (sections_v ls) (f_views f).
+  Proof. intros H. now apply parse_v_sections_nodup in H. Qed.
 
   Definition vitems (lines : list (nat * string)) : list vitem := map (fun p => vitem_of (snd p)) lines.
   Fixpoint last_filter (l : list vitem) : option string :=
@@ -1597,16 +1656,34 @@ Section Reject.
   Definition preamble_v (ls : list string) : list (nat * string) :=
     fst (group (map (fun p => (fst p, classify_v (snd p))) (number 1 ls))).
 
+  Lemma with_seen_split sn sec secs : forall seen,
+    In (sn, sec) (with_seen seen secs) ->
+    exists s1 s2, secs = s1 ++ sec :: s2 /\ sn = seen ++ map sec_name s1.
+  Proof.
+    induction secs as [|x r IH]; intros seen; [intros []|]. cbn [with_seen]. intros [H|H].
+    - inversion H; subst. exists [], r. cbn. now rewrite app_nil_r.
+    - destruct (IH _ H) as (s1 & s2 & -> & ->). exists (x :: s1), s2. cbn [app map]. split; [reflexivity|].
+      rewrite <- app_assoc. reflexivity.
+  Qed.
+
   Lemma parse_v_err ls n k :
     parse_views pyparse ls = Err n k ->
     (exists s g, In (n, s) (preamble_v ls) /\ vpre_step pyparse g (n, s) = Err n k) \/
-    (exists sec, In sec (sections_v ls) /\ build_view pyparse sec = Err n k).
+    (exists sec, In sec (sections_v ls) /\ build_view pyparse sec = Err n k) \/
+    (k = VDuplicateName /\ exists s1 name lines s2,
+       sections_v ls = s1 ++ (n, name, lines) :: s2 /\ In name (map sec_name s1)).
   Proof.
     unfold parse_views, parse_v_numbered, preamble_v, sections_v.
     destruct (group _) as [pre secs]. cbn [fst snd].
     destruct (foldM (vpre_step pyparse) pre []) as [g|n' k'] eqn:F; cbn [bind].
-    - destruct (mapM (build_view pyparse) secs) eqn:M; [discriminate|]. cbn [bind].
-      intros H; inversion H; subst. right. now apply mapM_Err.
+    - destruct (mapM (build_view_d pyparse) (with_seen [] secs)) eqn:M; [discriminate|]. cbn [bind].
+      intros H; inversion H; subst. right.
+      apply mapM_Err in M as ([sn [[n0 name] lines]] & Hin & B).
+      unfold build_view_d in B. cbn [fst snd] in B. destruct (mem name sn) eqn:Mm.
+      + right. inversion B; subst. split; [reflexivity|].
+        apply with_seen_split in Hin as (s1 & s2 & -> & ->). exists s1, name, lines, s2. split; [reflexivity|].
+        apply mem_In in Mm. exact Mm.
+      + left. exists (n0, name, lines). split; [eapply with_seen_in_inv; eauto|exact B].
     - intros H; inversion H; subst. left.
       apply foldM_Err in F as (g & [n' s] & Hin & E).
       assert (n' = n).
@@ -1621,8 +1698,22 @@ Section Reject.
     unfold parse_views, parse_v_numbered, sections_v.
     destruct (group _) as [pre secs]. cbn [snd].
     intros Hin Hb. destruct (foldM (vpre_step pyparse) pre []); [|reflexivity]. cbn [bind].
-    pose proof (mapM_some_Err _ _ _ _ _ Hin Hb) as E.
-    destruct (mapM (build_view pyparse) secs); [discriminate E|reflexivity].
+    destruct (with_seen_in sec secs [] Hin) as [sn Hsn].
+    assert (E : is_ok (mapM (build_view_d pyparse) (with_seen [] secs)) = false).
+    { unfold build_view_d in *. destruct (mem (snd (fst sec)) sn) eqn:M.
+      - eapply (mapM_some_Err _ _ (sn, sec)); [exact Hsn|]. cbn [fst snd]. rewrite M. reflexivity.
+      - eapply (mapM_some_Err _ _ (sn, sec)); [exact Hsn|]. cbn [fst snd]. rewrite M. exact Hb. }
+    destruct (mapM (build_view_d pyparse) (with_seen [] secs)); [discriminate E|reflexivity].
+  Qed.
+
+  (* two sections with exactly the same name: rejected *)
+  Lemma v_reject_duplicate_name ls s1 n name lines s2 :
+    sections_v ls = s1 ++ (n, name, lines) :: s2 -> In name (map sec_name s1) ->
+    is_ok (parse_views pyparse ls) = false.
+  Proof.
+    intros E Hin. destruct (parse_views pyparse ls) as [f|] eqn:P; [|reflexivity]. exfalso.
+    apply parse_v_sections_nodup in P as [_ N]. rewrite E, map_app in N. cbn [map] in N.
+    apply NoDup_remove_2 in N. apply N. apply in_or_app. now left.
   Qed.
 
   Lemma v_reject_missing_filter ls n0 name lines :
@@ -1665,12 +1756,25 @@ Section Reject.
     parse_views pyparse ls = Err n VMissingFilter ->
     exists name lines, In (n, name, lines) (sections_v ls) /\ last_filter (vitems lines) = None.
   Proof.
-    intros H. apply parse_v_err in H as [(s & g & _ & E)|([[n0 name] lines] & Hin & B)].
+    intros H. apply parse_v_err in H as [(s & g & _ & E)|[([[n0 name] lines] & Hin & B)|(E & _)]].
     - exfalso. unfold vpre_step in E. destruct (vitem_of s); try discriminate E; destruct (pyparse e); discriminate E.
     - apply build_view_err in B as [(s & _ & C)|(-> & _ & L)].
       + exfalso. unfold vline_check in C. destruct (vitem_of s); try discriminate C; destruct (pyparse e); discriminate C.
       + eauto.
+    - discriminate E.
   Qed.
+
+  Lemma v_duplicate_name_names_line ls n :
+    parse_views pyparse ls = Err n VDuplicateName ->
+    exists s1 name lines s2, sections_v ls = s1 ++ (n, name, lines) :: s2 /\ In name (map sec_name s1).
+  Proof.
+    intros H. apply parse_v_err in H as [(s & g & _ & E)|[([[n0 name] lines] & Hin & B)|(_ & D)]].
+    - exfalso. unfold vpre_step in E. destruct (vitem_of s); try discriminate E; destruct (pyparse e); discriminate E.
+    - exfalso. apply build_view_err in B as [(s & _ & C)|(_ & E & _)]; [|discriminate E].
+      unfold vline_check in C. destruct (vitem_of s); try discriminate C; destruct (pyparse e); discriminate C.
+    - exact D.
+  Qed.
+
 End Reject.
 
 (* ========================================================================================== *)
@@ -1757,20 +1861,24 @@ Section NoDrop.
     - destruct (group_app_hdr _ Hh) as (pre1 & s1 & n0 & name & p & E).
       rewrite E in *. clear E.
       destruct (foldM (vpre_step pyparse) pre1 []) as [g|]; [|discriminate Hok]. cbn [bind] in *.
-      assert (Hm : is_ok (mapM (build_view pyparse)
-                 (s1 ++ (n0, name, p ++ fst (group (tkv (1 + length l1, l) :: map tkv (number (S (1 + length l1)) l2))))
-                     :: snd (group (tkv (1 + length l1, l) :: map tkv (number (S (1 + length l1)) l2))))) = true).
+      rewrite with_seen_app in Hok. cbn [with_seen fst snd] in Hok.
+      set (sn := [] ++ map (fun s : section => snd (fst s)) s1) in *.
+      set (Q := fst (group (tkv (1 + length l1, l) :: map tkv (number (S (1 + length l1)) l2)))) in *.
+      set (W2 := with_seen (sn ++ [name]) (snd (group (tkv (1 + length l1, l) :: map tkv (number (S (1 + length l1)) l2))))) in *.
+      assert (Hm : is_ok (mapM (build_view_d pyparse) (with_seen [] s1 ++ (sn, (n0, name, p ++ Q)) :: W2)) = true).
       { destruct (mapM _ _); [reflexivity|discriminate Hok]. }
       destruct (mapM_prefix_ok _ _ _ Hm) as [a Ha].
       apply mapM_suffix_ok in Hm. apply mapM_head_ok in Hm as [r Hr].
+      unfold build_view_d in Hr. cbn [fst snd] in Hr. destruct (mem name sn) eqn:Mm; [discriminate Hr|].
       unfold build_view in Hr.
       assert (Hf : exists st, foldM (apply_vline pyparse) p pview0 = Ok st).
-      { apply (foldM_prefix_ok _ p (fst (group (tkv (1 + length l1, l) :: map tkv (number (S (1 + length l1)) l2))))).
-        destruct (foldM (apply_vline pyparse) _ pview0); [reflexivity|discriminate Hr]. }
+      { apply (foldM_prefix_ok _ p Q). destruct (foldM (apply_vline pyparse) _ pview0); [reflexivity|discriminate Hr]. }
       destruct Hf as [st Hst].
       unfold tkv at 1. cbn [fst snd group]. change (classify_v garbage) with (Content garbage).
       destruct (group (map tkv (number (S (1 + length l1)) l2))) as [q s2]. cbn [fst snd].
-      rewrite (mapM_err_at _ s1 a _ _ (1 + length l1) VUnexpected Ha); [reflexivity|].
+      rewrite with_seen_app. cbn [with_seen fst snd]. fold sn.
+      rewrite (mapM_err_at _ (with_seen [] s1) a _ _ (1 + length l1) VUnexpected Ha); [reflexivity|].
+      unfold build_view_d. cbn [fst snd]. rewrite Mm.
       unfold build_view. rewrite foldM_app, Hst. cbn [bind foldM]. reflexivity.
     - rewrite !(group_app_nohdr _ _ Hh) in *. cbn [fst snd] in *.
       assert (Hf : exists g, foldM (vpre_step pyparse) (contents (map tkv (number 1 l1))) [] = Ok g).
@@ -2232,4 +2340,23 @@ Proof.
   - exact (get_all_rules_ok pyparse csv_rules ls).
   - exact (get_all_rules_err pyparse csv_rules ls).
   - exact (load_views_err pyparse ls).
+Qed.
+
+(* views: a second section whose name exactly equals an earlier one *)
+Lemma c17_reject_duplicate_view_name_holds :
+  forall pyparse ls,
+    (forall s1 n name lines s2, sections_v ls = s1 ++ (n, name, lines) :: s2 -> In name (map sec_name s1) ->
+       is_ok (parse_views pyparse ls) = false) /\
+    (forall n, parse_views pyparse ls = Err n VDuplicateName ->
+       exists s1 name lines s2, sections_v ls = s1 ++ (n, name, lines) :: s2 /\ In name (map sec_name s1)) /\
+    (forall f, parse_views pyparse ls = Ok f -> NoDup (map v_name (f_views f))).
+Proof.
+  intros pyparse ls. split; [|split].
+  - exact (v_reject_duplicate_name pyparse ls).
+  - exact (v_duplicate_name_names_line pyparse ls).
+  - intros f H. apply parse_v_sections_nodup in H as [F N].
+    assert (E : map v_name (f_views f) = map sec_name (sections_v ls)).
+    { clear N. induction F as [|[[n0 name] lines] v secs vs Hb _ IH]; [reflexivity|].
+      cbn [map]. rewrite IH. apply build_view_spec in Hb. destruct Hb as (H1 & _). now rewrite H1. }
+    now rewrite E.
 Qed.
